@@ -237,7 +237,7 @@ class sptensor:
         assert callable(function_handle), "function_handle must be callable"
 
         shape = parse_shape(shape)
-        if (nonzeros < 0) or (nonzeros >= prod(shape)):
+        if (nonzeros < 0) or (nonzeros > prod(shape)):
             assert False, (
                 "Requested number of nonzeros must be positive "
                 "and less than the total size"
@@ -3753,7 +3753,8 @@ def sptenrand(
     shape = parse_shape(shape)
     if isinstance(density, float):
         # TODO this should be an int
-        valid_nonzeros = float(prod(shape) * density)
+        # At least one nonzero (from_function reads values below 1 as a density)
+        valid_nonzeros = max(1.0, float(prod(shape) * density))
     elif isinstance(nonzeros, (int, float)):
         valid_nonzeros = nonzeros
     else:  # pragma: no cover
